@@ -195,6 +195,38 @@ def runSched {α β : Type} (f : α → β) : State α β → List Nat → State
 def run {α β : Type} (f : α → β) (st : State α β) (cs : List Nat) : State α β :=
   (runSched f st cs).1
 
+/-! ### termination measure of a schedule (round 5)
+
+`measure` bounds the number of steps any schedule can still execute: the master's
+remaining calls (a `submit_call` also puts one message into a channel, hence the factor
+2), the `terminate()` of `run()` (one message per slave, hence `size + 1`), and the
+messages still waiting in the channels master → slave. -/
+
+def sumTo (a : Nat → Nat) : Nat → Nat
+  | 0 => 0
+  | n + 1 => sumTo a n + a n
+
+/-- messages waiting in the channels master → slave -/
+def inboxTotal {α β : Type} (st : State α β) : Nat :=
+  sumTo (fun s => (st.inbox s).length) st.size
+
+def measure {α β : Type} (st : State α β) : Nat :=
+  (if st.finished = true ∨ st.err.isSome = true then 0 else 2 * st.prog.length + st.size + 1) +
+    inboxTotal st
+
+/-- number of entries of the schedule that were executed (not skipped) -/
+def executed {α β : Type} (f : α → β) (st : State α β) (cs : List Nat) : Nat :=
+  cs.length - (runSched f st cs).2
+
+/-- number of `submit_call`s in a master program -/
+def nSubmits {α : Type} : List (Op α) → Nat
+  | [] => 0
+  | .submit _ _ _ _ :: r => nSubmits r + 1
+  | _ :: r => nSubmits r
+
+/-- no rank can move -/
+def quiescent {α β : Type} (f : α → β) (st : State α β) : Prop := ∀ c, step f st c = none
+
 /-! ### specification: what the calls of `master()` return, independent of any
 communicator -/
 
